@@ -43,6 +43,10 @@ fn main() {
 	a2.push(&skip_arg);
 
 	let sink = VioSink::new("Builds/default-vs-unsafe_performance");
+	// element-lifetime ledger of the Window<Tracked> programs: an error in ANY build is a violation
+	for (id, l) in base.lines.iter().filter(|(_, l)| l.status == "ledger-error") {
+		sink.push(&format!("{}/element-dropped-twice-or-used-after-drop[default build]", l.block), id.clone(), "the drop ledger of the element type reports a dead element in use or a double drop".into());
+	}
 	// (1) bit-identical results
 	let uns = run_transcript(&unsafe_bin, &a2, None);
 	if !uns.end.contains("unsafe_performance=true") && uns.complete {
@@ -50,6 +54,9 @@ fn main() {
 	}
 	if !uns.complete {
 		sink.push("unsafe-build/crashed", "whole transcript".into(), format!("the unsafe_performance build did not finish: {}", uns.signal_or_error));
+	}
+	for (id, l) in uns.lines.iter().filter(|(_, l)| l.status == "ledger-error") {
+		sink.push(&format!("{}/element-dropped-twice-or-used-after-drop", l.block), id.clone(), "unsafe_performance build: the drop ledger of the element type reports a dead element in use or a double drop".into());
 	}
 	let c = compare(&base, &uns, false);
 	for (block, id, what) in c.diffs.iter() {
